@@ -1867,10 +1867,10 @@ class sptensor:
         """
         shapeArray = np.array(self.shape)
 
-        # No singleton dimensions
-        if np.all(shapeArray > 1):
+        # No singleton dimensions (a mode of size 0 is not a singleton: it is kept)
+        if np.all(shapeArray != 1):
             return self.copy()
-        idx = np.where(shapeArray > 1)[0]
+        idx = np.where(shapeArray != 1)[0]
         if idx.size == 0:
             # all modes are singletons: the single entry, 0 when nothing is stored
             return self.vals.item() if self.vals.size > 0 else 0.0
